@@ -1,0 +1,15 @@
+//go:build verif
+
+package fsutil
+
+// Contracts for govc (contract-based deductive verification, see /verif/DESIGN.md).
+// Comment-only: with the tag off this file is not compiled, with it on it adds no code.
+
+//@ pure rootedOf(p string) string = ite(p == "" || p[0] != '/', "/" + p, p)
+
+//@ func ResolveUrlPath
+//@   requires len(baseFilePath) > 0
+//@   modifies nothing
+//@   ensures spec: result == joinSpec(baseFilePath, cleanSpec(rootedOf(rawUrlPath)))
+//@   ensures contain: within(baseFilePath, result)
+//@   ensures plain: dotFree(rootedOf(rawUrlPath)) ==> result == joinSpec(baseFilePath, rootedOf(rawUrlPath))
